@@ -553,4 +553,169 @@ theorem greedySearch_ok (v : View) (dq : Id → D) (k ss : Nat) (filter : Option
   refine ⟨st, hst, hI', hnone, ?_⟩
   rw [greedySearch_eq v dq k ss filter _ hk he, hst]
 
+/-! ### the exact regime of a small pre-filter: the result set is a top-k set of everything seeded -/
+
+theorem sorted_le_last (l : List (Elem D)) (a : Elem D) (h : SortedD l) (ha : l.getLast? = some a) :
+    l = l.dropLast ++ [a] ∧ ∀ x ∈ l, x.dist ≤ a.dist := by
+  have hl : l.dropLast ++ [a] = l := by
+    obtain ⟨ys, rfl⟩ := List.getLast?_eq_some_iff.mp ha
+    simp
+  refine ⟨hl.symm, ?_⟩
+  intro x hx
+  rw [← hl] at hx h
+  unfold SortedD at h
+  rw [List.pairwise_append] at h
+  rcases List.mem_append.mp hx with h1 | h1
+  · exact h.2.2 x h1 a (by simp)
+  · simp at h1; subst h1; exact le_refl _
+
+/-- bounded top-k set: sorted, within capacity, and everything seen but not kept is at least as far as every
+kept element (and then the set is full) -/
+structure TopK (dq : Id → D) (ds : DistSet D) : Prop where
+  sorted : SortedD ds.items
+  len : ds.items.length ≤ ds.cap
+  inv : DSInv dq (fun _ => true) ds
+  rest : ∀ i ∈ ds.seen, i ∉ ds.items.map (·.id) → ds.items.length = ds.cap ∧ ∀ e ∈ ds.items, e.dist ≤ dq i
+
+theorem addWithLimit1_topk (dq : Id → D) (ds : DistSet D) (p : Id) (h : TopK dq ds) : TopK dq (ds.addWithLimit1 dq p) := by
+  refine ⟨addWithLimit1_sorted dq ds p h.sorted, addWithLimit1_len dq ds p h.len,
+    addWithLimit1_inv dq _ ds p rfl h.inv, ?_⟩
+  obtain ⟨hsorted, hlen, hinv, hrest⟩ := h
+  unfold DistSet.addWithLimit1
+  split
+  · exact hrest
+  · rename_i hs
+    have hps : p ∉ ds.seen := by simpa using hs
+    simp only
+    split
+    · rename_i hfull
+      have hfull' : ds.items.length = ds.cap := by simpa using hfull
+      split
+      · -- cap = 0
+        rename_i hnone
+        have hnil : ds.items = [] := by simpa using hnone
+        intro i hi hni
+        simp only [hnil, List.length_nil] at hfull' ⊢
+        exact ⟨hfull', by simp⟩
+      · rename_i l hl
+        obtain ⟨hdl, hle⟩ := sorted_le_last _ l hsorted hl
+        split
+        · -- farther than the last: skipped
+          rename_i hlt
+          intro i hi hni
+          simp only at hi hni ⊢
+          rcases List.mem_cons.mp hi with rfl | hi'
+          · exact ⟨hfull', fun e he => le_of_lt (lt_of_le_of_lt (hle e he) hlt)⟩
+          · exact hrest i hi' hni
+        · -- replaces the last
+          rename_i hnlt
+          have hel : dq p ≤ l.dist := not_lt.mp hnlt
+          intro i hi hni
+          simp only at hi hni ⊢
+          have hlen' : (bubble ({ id := p, dist := dq p } : Elem D) ds.items.dropLast).length = ds.cap := by
+            rw [bubble_length, List.length_dropLast]
+            have : ds.items.length ≠ 0 := by
+              intro h0; rw [List.length_eq_zero_iff] at h0; simp [h0] at hl
+            omega
+          refine ⟨hlen', ?_⟩
+          -- i is not the new point (it is kept)
+          have hip : i ≠ p := by
+            intro hip; apply hni
+            exact List.mem_map.mpr ⟨_, mem_bubble.mpr (Or.inl rfl), hip.symm⟩
+          have hi' : i ∈ ds.seen := by
+            rcases List.mem_cons.mp hi with h1 | h1
+            · exact absurd h1 hip
+            · exact h1
+          -- either i is the evicted element or it was outside before
+          have hbound : l.dist ≤ dq i := by
+            by_cases hil : i = l.id
+            · rw [hil, ← (hinv.ok l (by rw [hdl]; simp)).1]
+            · have : i ∉ ds.items.map (·.id) := by
+                intro hm
+                obtain ⟨x, hx, rfl⟩ := List.mem_map.mp hm
+                rw [hdl] at hx
+                rcases List.mem_append.mp hx with h1 | h1
+                · exact hni (List.mem_map.mpr ⟨x, mem_bubble.mpr (Or.inr h1), rfl⟩)
+                · simp at h1; exact hil (by rw [h1])
+              exact (hrest i hi' this).2 l (by rw [hdl]; simp)
+          intro e he
+          rcases mem_bubble.mp he with rfl | h1
+          · exact le_trans hel hbound
+          · exact le_trans (hle e (List.dropLast_subset _ h1)) hbound
+    · split
+      · -- room left: appended
+        rename_i hlt
+        intro i hi hni
+        simp only at hi hni ⊢
+        exfalso
+        have hip : i ≠ p := by
+          intro hip; apply hni
+          exact List.mem_map.mpr ⟨_, mem_bubble.mpr (Or.inl rfl), hip.symm⟩
+        have hi' : i ∈ ds.seen := by
+          rcases List.mem_cons.mp hi with h1 | h1
+          · exact absurd h1 hip
+          · exact h1
+        have : i ∉ ds.items.map (·.id) := by
+          intro hm
+          obtain ⟨x, hx, rfl⟩ := List.mem_map.mp hm
+          exact hni (List.mem_map.mpr ⟨x, mem_bubble.mpr (Or.inr hx), rfl⟩)
+        have := (hrest i hi' this).1
+        omega
+      · rename_i h1 h2
+        simp at h1; omega
+
+theorem new_topk (dq : Id → D) (c : Nat) : TopK dq (DistSet.new c : DistSet D) :=
+  ⟨by simp [DistSet.new, SortedD], by simp [DistSet.new], new_inv dq _ c, by simp [DistSet.new]⟩
+
+/-- the result set in filter mode: a top-k set (k = its capacity) of what it has seen, which is the seeded
+points plus visited members of the filter -/
+structure FInv (v : View) (dq : Id → D) (k ss : Nat) (f : List Id) (st : GState D) : Prop where
+  topk : TopK dq st.result
+  seenF : ∀ i ∈ st.result.seen, i ∈ f ∧ v.hasVec i = true
+  seeded : ∀ i ∈ filterPoints v ss f, i ∈ st.result.seen
+  cap : st.result.cap = k
+
+theorem FInv_iff_result (v : View) (dq : Id → D) (k ss : Nat) (f : List Id) (st : GState D) :
+    FInv v dq k ss f st ↔ (TopK dq st.result ∧ (∀ i ∈ st.result.seen, i ∈ f ∧ v.hasVec i = true) ∧
+      (∀ i ∈ filterPoints v ss f, i ∈ st.result.seen) ∧ st.result.cap = k) :=
+  ⟨fun h => ⟨h.topk, h.seenF, h.seeded, h.cap⟩, fun ⟨a, b, c, d⟩ => ⟨a, b, c, d⟩⟩
+
+theorem FInv_init (v : View) (dq : Id → D) (k ss : Nat) (f : List Id) : FInv v dq k ss f (initState v dq k ss (some f)) := by
+  refine ⟨?_, ?_, ?_, ?_⟩
+  · exact addWithLimit_fold (Q := TopK dq) dq _ _ (fun _ => True) (fun ds p _ h => addWithLimit1_topk dq ds p h)
+      (fun _ _ => trivial) (new_topk dq k)
+  · intro i hi
+    have hi' : i ∈ ((DistSet.new k : DistSet D).addWithLimit dq (filterPoints v ss f)).seen := hi
+    rw [addWithLimit_seen] at hi'
+    rcases hi' with h | h
+    · have := List.mem_filter.mp h
+      exact ⟨List.mem_of_mem_take this.1, this.2⟩
+    · simp [DistSet.new] at h
+  · intro i hi
+    show i ∈ ((DistSet.new k : DistSet D).addWithLimit dq (filterPoints v ss f)).seen
+    rw [addWithLimit_seen]; exact Or.inl hi
+  · show ((DistSet.new k : DistSet D).addWithLimit dq (filterPoints v ss f)).cap = k
+    rw [addWithLimit_cap]; rfl
+
+theorem FInv_step (v : View) (dq : Id → D) (k ss : Nat) (f : List Id) (st : GState D) (e : Elem D) (es : List Id)
+    (hL : LInv v dq (some f) st) (hF : FInv v dq k ss f st) (he : nextUnvisited ss st.search.items = some e) :
+    FInv v dq k ss f (stepState v dq (some f) st e es) := by
+  have hres : (stepState v dq (some f) st e es).result =
+      if f.contains e.id then st.result.addWithLimit1 dq e.id else st.result := rfl
+  rw [FInv_iff_result] at hF ⊢
+  rw [hres]
+  split
+  · rename_i hc
+    have hem := (nextUnvisited_some ss _ e he).1
+    obtain ⟨h1, h2, h3, h4⟩ := hF
+    refine ⟨addWithLimit1_topk dq _ _ h1, ?_, ?_, ?_⟩
+    · intro i hi
+      rcases (addWithLimit1_seen dq _ _ i).mp hi with rfl | h
+      · exact ⟨by simpa using hc, (hL.s.ok e hem).2⟩
+      · exact h2 i h
+    · intro i hi
+      exact (addWithLimit1_seen dq _ _ i).mpr (Or.inr (h3 i hi))
+    · rw [addWithLimit1_cap]; exact h4
+  · exact hF
+
 end Sema.C03
